@@ -166,8 +166,13 @@ class C01(Prop):
     def cases(self, tier, rng):
         f = self.fmts[0]
         out = gen.exhaustive(f, self.L[tier])
-        out += gen.structured(f, rng, self.N[tier],
-                              ops_fn=lambda r, t: mix_owned(r, ['N'] * gen.n_items_bound(f, t)))
+        def ops_fn(r, t):
+            ops = mix_owned(r, ['N'] * gen.n_items_bound(f, t))
+            if r.chance(1, 5):
+                # reading record by record with another (never-refusing) policy installed somewhere on the way
+                ops.insert(r.below(len(ops) + 1), 'Y' + r.choice(['std', 'du.7', 'plus.3.100000']))
+            return ops
+        out += gen.structured(f, rng, self.N[tier], ops_fn=ops_fn)
         return out
 
     def oracle(self, res):
@@ -873,7 +878,13 @@ class C11(Prop):
             tail = b''
             if f == 'fq' and final and rng.chance(1, 4):
                 tail = t * rng.range(1, 2)
-            c = gen.mkcase(f, cap, text + tail, gen.rnd_chunking(rng, len(text)), None, 'std', ['N'] * (nrec + 2))
+            ops = ['N'] * (nrec + 2)
+            if rng.chance(1, 2):
+                # the records reach the caller through record sets as well: two set slots used alternately, exact
+                # counts smaller than what the buffer holds (so that consecutive batches come from ONE buffer
+                # filling), single reads in between; every record still exactly once, in order
+                ops = [rng.choice(['N', 'E0.1', 'E1.1', 'E0.2', 'E1.2', 'S0', 'S1']) for _ in range(nrec + 3)]
+            c = gen.mkcase(f, cap, text + tail, gen.rnd_chunking(rng, len(text)), None, 'std', ops)
             self.wellformed[c] = (f, text, crlf, final)
             out.append(c)
         return out
@@ -881,8 +892,8 @@ class C11(Prop):
     def project(self, pl):
         if pl['op'] == 'wr':
             return 'wr ' + pl['out']
-        f = rec_fields(pl['out']) if pl['kind'] == 'rec' else {}
-        return '%s %s wu=%s w=%s' % (pl['op'], pl['kind'], f.get('wu'), f.get('w'))
+        dumps = [pl['out']] if pl['kind'] == 'rec' else (set_records(pl['out']) or []) if pl['kind'] == 'set' else []
+        return '%s %s %s' % (pl['op'], pl['kind'], '|'.join('wu=%s w=%s' % (rec_fields(d).get('wu'), rec_fields(d).get('w')) for d in dumps))
 
     def nontrivial(self, res):
         return any((' rec ' in l) or l.startswith('wr to=') for l in res['impl'])
@@ -892,8 +903,14 @@ class C11(Prop):
         info = getattr(self, 'wellformed', {}).get(res['case'])
         if info:
             f, text, crlf, final = info
-            recs = [rec_fields(parse_line(l)['out']) for l in res['impl'] if parse_line(l)['kind'] == 'rec']
-            wu = b''.join(bytes.fromhex(r['wu']) for r in recs)
+            recs = []
+            for l in res['impl']:
+                pl = parse_line(l)
+                if pl['kind'] == 'rec':
+                    recs.append(rec_fields(pl['out']))
+                elif pl['kind'] == 'set' and pl['op'][0] in 'SE':
+                    recs.extend(rec_fields(d) for d in (set_records(pl['out']) or []))
+            wu = b''.join(bytes.fromhex(r['wu']) for r in recs if 'wu' in r)
             t = b'\r\n' if crlf else b'\n'
             if f == 'fq':
                 # FASTQ: unchanged writing reproduces the input (final terminator added, blank tail dropped)
@@ -1608,6 +1625,13 @@ class C18(Prop):
             cap = rng.choice([one + 1, 2 * one + 3, 3 * one - 1, 5 * one, 7 * one + 2, 64, 256])
             mode = rng.choice(['x1', 'x2', 'x3', 'x%d' % rng.range(4, 9), 'm%d' % rng.range(1, 12), 'm%d' % rng.range(1, 40)])
             out.append('al %s %d %s %s 100000' % (f, max(3, cap), gen.hx(text), mode))
+            # the same file read with seeks in between (to the first, second or sixth record: inside the buffer or far
+            # behind it): a seek and the reads after it allocate nothing either
+            tix = rng.choice([0, 1, 5])
+            lines_per = 2 if f == 'fa' else 4
+            tgt = (1 + lines_per * tix, one * tix)
+            capk = rng.choice([one + 1, 2 * one + 3, 4 * one + 2, 4 * one + 5, 7 * one + 2, 64, 256])
+            out.append('al %s %d %s k%s%d.%d.%d 100000' % (f, max(3, capk), gen.hx(text), rng.choice('ns'), rng.choice([2, 3, 7, 12]), tgt[0], tgt[1]))
         return out
 
     def extra(self, tier, rng, stats):
